@@ -41,8 +41,8 @@ theorem facts_as_modelled :
     ctEkuOid = oidContent Gen.oidExtKeyUsageCT ∧
     Gen.ekuTableCTRows = ["{ExtKeyUsageCertificateTransparency, oidExtKeyUsageCertificateTransparency}"] ∧
     Gen.isPreIssuerSearch = "FIRST(issuer.ExtKeyUsage;==:x509.ExtKeyUsageCertificateTransparency;true;false)" ∧
-    Gen.leafFromChainCallsCanon = ["x509.BuildPrecertTBS(chain[0].RawTBSCertificate,preIssuer)"] ∧
-    Gen.leafForEmbeddedCallsCanon = ["x509.RemoveSCTList(chain[0].RawTBSCertificate)"] ∧
+    -- (what the two leaf builders call with which arguments, and their chain-length guards, are no longer pinned here as text:
+    --  `Gen.mtlFromChain` / `Gen.mtlForEmbedded` regenerate them as Lean functions and `C03Tie.mtl_tie` / `emb_tie` tie the model to those)
     -- removeExtension and BuildPrecertTBS PATH BY PATH (extract/k_tbscanon.go): under which conditions each path is taken, every effect on
     -- the tbsCertificate value in order (`tbs <- asn1.Unmarshal(…)`, every write `tbs.… = …`, the loop of removeExtension, `use asn1.Marshal(tbs)`),
     -- and what is returned; error paths as the set of their conditions. Locals are resolved to what they stand for on that path, same-file
@@ -530,58 +530,6 @@ theorem preissuer_iff_ct_eku (c : Chain1) :
 
 example : preIssuerOf (some ⟨[[0x2b, 0x06, 0x01, 0x05, 0x05, 0x07, 0x03, 0x01], ctEkuOid], ⟨[0x30], []⟩, none⟩) ≠ none ∧
     preIssuerOf (some ⟨[[0x2b, 0x06, 0x01, 0x04, 0x01, 0xd6, 0x79, 0x02, 0x04, 0x05]], ⟨[0x30], []⟩, none⟩) = none := by
-  decide
-
-/-- The chain-length guards of the two leaf builders, **regenerated** from serialization.go (`n = len(chain) = rest.length + 1`),
-are the list patterns of the model: too short ⇒ refused; long enough ⇒ the TBS transformation paired with the key of
-`chain[1]` (direct, embedded) or `chain[2]` (pre-issuer). -/
-theorem leaf_guards_as_modelled (tbs : Bytes) (rest : List Bytes) (p : PreIssuer) :
-    (Gen.leafChainTooShort (rest.length + 1 : Nat) = true →
-      leafFromPrecertChain tbs rest none = none ∧ leafFromPrecertChain tbs rest (some p) = none) ∧
-    (Gen.leafPreIssuerChainTooShort (rest.length + 1 : Nat) = true → leafFromPrecertChain tbs rest (some p) = none) ∧
-    (Gen.leafEmbeddedChainTooShort (rest.length + 1 : Nat) = true → leafForEmbeddedSCT tbs rest = none) ∧
-    (Gen.leafChainTooShort (rest.length + 1 : Nat) = false →
-      ∃ k r, rest = k :: r ∧ leafFromPrecertChain tbs rest none = (buildPrecertTBS tbs none).map (·, k)) ∧
-    (Gen.leafPreIssuerChainTooShort (rest.length + 1 : Nat) = false →
-      ∃ k1 k2 r, rest = k1 :: k2 :: r ∧ leafFromPrecertChain tbs rest (some p) = (buildPrecertTBS tbs (some p)).map (·, k2)) ∧
-    (Gen.leafEmbeddedChainTooShort (rest.length + 1 : Nat) = false →
-      ∃ k r, rest = k :: r ∧ leafForEmbeddedSCT tbs rest = (removeExt sctOid tbs).map (·, k)) := by
-  unfold Gen.leafChainTooShort Gen.leafPreIssuerChainTooShort Gen.leafEmbeddedChainTooShort
-  simp only [decide_eq_true_eq, decide_eq_false_iff_not]
-  refine ⟨?_, ?_, ?_, ?_, ?_, ?_⟩
-  · intro h
-    cases rest with
-    | nil => simp [leafFromPrecertChain]
-    | cons k r => simp at h; omega
-  · intro h
-    cases rest with
-    | nil => simp [leafFromPrecertChain]
-    | cons k r =>
-      cases r with
-      | nil => simp [leafFromPrecertChain]
-      | cons k2 r2 => simp at h; omega
-  · intro h
-    cases rest with
-    | nil => simp [leafForEmbeddedSCT]
-    | cons k r => simp at h; omega
-  · intro h
-    cases rest with
-    | nil => simp at h
-    | cons k r => exact ⟨k, r, rfl, by simp [leafFromPrecertChain]⟩
-  · intro h
-    cases rest with
-    | nil => simp at h
-    | cons k r =>
-      cases r with
-      | nil => simp at h
-      | cons k2 r2 => exact ⟨k, k2, r2, rfl, by simp [leafFromPrecertChain]⟩
-  · intro h
-    cases rest with
-    | nil => simp at h
-    | cons k r => exact ⟨k, r, rfl, by simp [leafForEmbeddedSCT]⟩
-
-example : Gen.leafChainTooShort 1 = true ∧ Gen.leafChainTooShort 2 = false ∧ Gen.leafPreIssuerChainTooShort 2 = true ∧
-    Gen.leafPreIssuerChainTooShort 3 = false ∧ Gen.leafEmbeddedChainTooShort 0 = true ∧ Gen.leafEmbeddedChainTooShort 2 = false := by
   decide
 
 /-- **Identical log entry.** `MerkleTreeLeafFromChain` on the precertificate chain and `MerkleTreeLeafForEmbeddedSCT` on the final
